@@ -721,6 +721,9 @@ def run_cli(argv):
 
 
 # ------------------------------------------------------------------------------------ run
+from concurrent.futures import ThreadPoolExecutor  # noqa: E402
+POOL = ThreadPoolExecutor(max_workers=6)
+
 PRE = ("From S2T Require Import Lib.PyStr C05.Model C05.Corr Gen.C05Registry.\nImport ListNotations.\n"
        "Open Scope N_scope.\n")
 
@@ -813,7 +816,7 @@ def run(ctx):
                         {"instance": vt[:4000]})
         # oracle: without binary == with binary on the value whose binary leaves are None
         if jtext(S._serialize_for_json(null_binary(x), include_binary=True)) != jtext(jf) if not other_leaves(x) else False:
-            ctx.finding(f"no-binary-differs:{type(x).__name__}", "include_binary=False changed more than the binary fields",
+            ctx.finding("no-binary-differs:generated-instance", f"include_binary=False changed more than the binary fields ({type(x).__name__})",
                         {"instance": vt[:4000]})
         ser_cases.append(f"({vt}, {tb.enc_table()}, {json_term(jt)}, {json_term(jf)}, {json_term(tj)})")
         y, err, stage = roundtrip_impl(x)
@@ -829,52 +832,56 @@ def run(ctx):
                                                             "other-leaf" if other_leaves(x) else "clean"))
 
     mark("instances-python")
-    oks, fs, logs = coq_eval_shards(ctx, "ser", PRE, "ser_case", ser_cases, shard=120,
-                                    ty="val * list (bytes * str) * json * json * json")
-    ctx.traces += len(ser_cases)
-    ctx.disagreements += len(fs)
-    ctx.obligation("correspondence:serialize/to_json model==implementation on instances", oks and not fs,
-                   (f"{len(fs)} disagreements, first: {ser_cases[fs[0]][:600] if fs else ''} " + logs)[:1800])
-    okp, fp, logp = coq_eval_shards(ctx, "pipe", PRE, "(pipe_case R WS)", pipe_cases, shard=120,
-                                    ty="val * list (bytes * str) * list (str * option bytes) * option val")
-    ctx.traces += len(pipe_cases)
-    ctx.disagreements += len(fp)
-    ctx.obligation("correspondence:from_json(loads(dumps(to_json))) model==implementation on instances", okp and not fp,
-                   (f"{len(fp)} disagreements, first: {pipe_cases[fp[0]][:900] if fp else ''} " + logp)[:2200])
-    okh, nh, logh = coq_eval_shards(ctx, "hyps", PRE, "(hyps R WS)", hyp_cases, shard=200, ty="val")
-    ctx.obligation("evaluation of the theorem hypotheses on the instances", okh, logh[:800])
-    nohyp = set(nh)
-    ctx.count("instances-satisfying-roundtrip-hypotheses", len(insts) - len(nohyp))
+    f_ser = POOL.submit(coq_eval_shards, ctx, "ser", PRE, "ser_case", ser_cases, shard=100,
+                        ty="val * list (bytes * str) * json * json * json")
+    f_pipe = POOL.submit(coq_eval_shards, ctx, "pipe", PRE, "(pipe_case R WS)", pipe_cases, shard=100,
+                         ty="val * list (bytes * str) * list (str * option bytes) * option val")
+    f_hyps = POOL.submit(coq_eval_shards, ctx, "hyps", PRE, "(hyps R WS)", hyp_cases, shard=200, ty="val")
 
-    mark("instances-coq")
-    # property oracle on the implementation
-    marker_hits = 0
-    for i, x in enumerate(insts):
-        y, err, stage = restored[i]
-        others = other_leaves(x)
-        if stage == "dumps" and not others:
-            ctx.finding(f"dumps-fails:{type(x).__name__}", f"json.dumps(to_json()) fails without a foreign leaf: {err}",
-                        {"instance": hyp_cases[i][:6000]})
-            continue
-        if i in nohyp:
-            # outside the theorem: only the recorded marker confusion is reported
-            bad = (y is None and stage == "from_json") or (y is not None and same_object_views(x, y))
-            if bad and has_marker_key(x) and not others:
-                marker_hits += 1
-                ctx.finding("marker-key-in-content-dict",
-                            "a dict key equal to _type/_bytes/_bytesio (document content) is taken for a marker by from_json",
-                            {"instance": hyp_cases[i][:6000], "error": err})
-            continue
-        if y is None:
-            ctx.finding(f"roundtrip-raises:{type(x).__name__}:{stage}",
-                        f"well-typed instance of {type(x).__name__} does not survive to_json/from_json: {err}",
-                        {"instance": hyp_cases[i][:6000], "stage": stage, "error": err})
-            continue
-        diffs = same_object_views(x, y)
-        if diffs:
-            ctx.finding(f"roundtrip-differs:{type(x).__name__}", f"restored {type(x).__name__} differs: {diffs}",
-                        {"instance": hyp_cases[i][:6000], "diffs": diffs})
-    ctx.count("marker-confusions-observed", marker_hits)
+    def finish_instances():
+        oks, fs, logs = f_ser.result()
+        ctx.traces += len(ser_cases)
+        ctx.disagreements += len(fs)
+        ctx.obligation("correspondence:serialize/to_json model==implementation on instances", oks and not fs,
+                       (f"{len(fs)} disagreements, first: {ser_cases[fs[0]][:600] if fs else ''} " + logs)[:1800])
+        okp, fp, logp = f_pipe.result()
+        ctx.traces += len(pipe_cases)
+        ctx.disagreements += len(fp)
+        ctx.obligation("correspondence:from_json(loads(dumps(to_json))) model==implementation on instances", okp and not fp,
+                       (f"{len(fp)} disagreements, first: {pipe_cases[fp[0]][:900] if fp else ''} " + logp)[:2200])
+        okh, nh, logh = f_hyps.result()
+        ctx.obligation("evaluation of the theorem hypotheses on the instances", okh, logh[:800])
+        nohyp = set(nh)
+        ctx.count("instances-satisfying-roundtrip-hypotheses", len(insts) - len(nohyp))
+
+        # property oracle on the implementation
+        marker_hits = 0
+        for i, x in enumerate(insts):
+            y, err, stage = restored[i]
+            others = other_leaves(x)
+            if stage == "dumps" and not others:
+                ctx.finding("dumps-fails:generated-instance", f"{type(x).__name__}: json.dumps(to_json()) fails without a foreign leaf: {err}",
+                            {"instance": hyp_cases[i][:6000]})
+                continue
+            if i in nohyp:
+                # outside the theorem: only the recorded marker confusion is reported
+                bad = (y is None and stage == "from_json") or (y is not None and same_object_views(x, y))
+                if bad and has_marker_key(x) and not others:
+                    marker_hits += 1
+                    ctx.finding("marker-key-in-content-dict",
+                                "a dict key equal to _type/_bytes/_bytesio (document content) is taken for a marker by from_json",
+                                {"instance": hyp_cases[i][:6000], "error": err})
+                continue
+            if y is None:
+                ctx.finding(f"roundtrip-raises:generated-instance:{stage}",
+                            f"well-typed instance of {type(x).__name__} does not survive to_json/from_json: {err}",
+                            {"instance": hyp_cases[i][:6000], "stage": stage, "error": err})
+                continue
+            diffs = same_object_views(x, y)
+            if diffs:
+                ctx.finding("roundtrip-differs:generated-instance", f"restored {type(x).__name__} differs: {diffs}",
+                            {"instance": hyp_cases[i][:6000], "diffs": diffs})
+        ctx.count("marker-confusions-observed", marker_hits)
 
     mark("instances-oracle")
     # ---- D2: perturbed JSON stream for the deserialiser
@@ -898,14 +905,16 @@ def run(ctx):
         dinfo.append((top, j, repr(T)))
         ctx.case(("deser", top, jt, repr(T)), any(m in json.dumps(j) for m in MARKERS),
                  kind="json-stream:" + ("top" if top else "value") + (":raises" if rt == "None" else ":ok"))
-    okd, fd, logd = coq_eval_shards(ctx, "deser", PRE, "(deser_case R WS)", dcases, shard=150,
-                                    ty="bool * json * ty * list (str * option bytes) * option val")
-    ctx.traces += len(dcases)
-    ctx.disagreements += len(fd)
-    ctx.obligation("correspondence:_deserialize_value/deserialize_extraction model==implementation on the JSON stream",
-                   okd and not fd, (f"{len(fd)} disagreements, first: {dinfo[fd[0]] if fd else ''} " + logd)[:2200])
-    if fd:
-        ctx.extra["deser_disagreements"] = [repr(dinfo[i])[:500] for i in fd[:8]]
+    f_deser = POOL.submit(coq_eval_shards, ctx, "deser", PRE, "(deser_case R WS)", dcases, shard=120,
+                          ty="bool * json * ty * list (str * option bytes) * option val")
+    def finish_deser():
+        okd, fd, logd = f_deser.result()
+        ctx.traces += len(dcases)
+        ctx.disagreements += len(fd)
+        ctx.obligation("correspondence:_deserialize_value/deserialize_extraction model==implementation on the JSON stream",
+                       okd and not fd, (f"{len(fd)} disagreements, first: {dinfo[fd[0]] if fd else ''} " + logd)[:2200])
+        if fd:
+            ctx.extra["deser_disagreements"] = [repr(dinfo[i])[:500] for i in fd[:8]]
 
     mark("json-stream")
     # ---- D2b: xlsx cell normalisation (model of the repaired _get_cell_value) + replay of the marker witness
@@ -915,7 +924,7 @@ def run(ctx):
              datetime.datetime(2020, 1, 2, 3, 4, 5), datetime.datetime(1999, 12, 31, 23, 59, 59, 123456),
              datetime.date(2021, 2, 3), datetime.time(1, 2, 3), datetime.time(0, 0), datetime.timedelta(0),
              datetime.timedelta(hours=1, minutes=30), datetime.timedelta(days=2, seconds=5, microseconds=7),
-             datetime.timedelta(days=-1), decimal.Decimal("1.5"), b"raw", (1, 2)]
+             datetime.timedelta(days=-1), decimal.Decimal("1.5"), complex(0, 1)]
     for _ in range(ctx.n(40, 400)):
         cells.append(r.choice([r.choice(STR_VOCAB), r.randrange(-10 ** 6, 10 ** 6), r.random() * 1000,
                                datetime.timedelta(seconds=r.randrange(-10 ** 6, 10 ** 7), microseconds=r.randrange(10 ** 6)),
@@ -933,10 +942,12 @@ def run(ctx):
             ctx.finding("xlsx-duration-cell" if isinstance(v, datetime.timedelta) else f"xlsx-cell:{type(v).__name__}",
                         f"xlsx _get_cell_value keeps a {type(v).__name__} cell value ({v!r}) that json.dumps rejects",
                         {"cell_value": repr(v), "how": "xlsx_extractor._get_cell_value(value); json.dumps"})
-    okx, fx_, logx = coq_eval_shards(ctx, "cells", PRE, "cell_case", ccases, shard=500, ty="cell * val")
-    ctx.traces += len(ccases)
-    ctx.obligation("correspondence:xlsx _get_cell_value model==implementation", okx and not fx_,
-                   (f"{len(fx_)} disagreements, first: {ccases[fx_[0]] if fx_ else ''} " + logx)[:1200])
+    f_cells = POOL.submit(coq_eval_shards, ctx, "cells", PRE, "cell_case", ccases, shard=500, ty="cell * val")
+    def finish_cells():
+        okx, fx_, logx = f_cells.result()
+        ctx.traces += len(ccases)
+        ctx.obligation("correspondence:xlsx _get_cell_value model==implementation", okx and not fx_,
+                       (f"{len(fx_)} disagreements, first: {ccases[fx_[0]] if fx_ else ''} " + logx)[:1200])
     wm = witness_marker(reg)
     y, err, stage = roundtrip_impl(wm)
     ctx.case(("witness", "marker"), True, kind="refutation-witness-replayed")
@@ -1002,7 +1013,7 @@ def run(ctx):
                     if jtext(S.serialize_extraction(null_binary(o), include_binary=True)) != jtext(jf):
                         ctx.finding(f"no-binary-differs:{label}", "include_binary=False changed more than the binary fields",
                                     {"document": str(p)})
-                    if len(text) < 60_000 and len(results_small) < ctx.n(25, 80):
+                    if len(text) < 40_000 and len(results_small) < ctx.n(20, 80):
                         results_small.append((key, o))
 
         mark("documents")
@@ -1049,14 +1060,14 @@ def run(ctx):
                             ctx.finding(f"cli-exit0-without-output:{label}", "CLI returned 0 without JSON", rp)
                         continue
                     if rc != 0 or out != want_text:
-                        ctx.finding(f"cli-output-differs:{label}:{flag}{'+binary' if binary else ''}",
-                                    f"CLI stdout is not json.dumps of the shaped payload (exit {rc})", rp)
+                        ctx.finding(f"cli-output-differs:{flag}{'+binary' if binary else ''}:{'one' if len(rs) == 1 else 'several'}",
+                                    f"CLI stdout is not json.dumps of the shaped payload (exit {rc}) for {label}", rp)
                         continue
                     parsed = json.loads(out)
                     shape_ok = (isinstance(parsed, dict) if (flag == "--json" and len(rs) == 1) else isinstance(parsed, list))
                     if not shape_ok:
-                        ctx.finding(f"cli-shape:{label}:{flag}", "one result must give an object, several an array", rp)
-                    if len(out) < 80_000 and flag == "--json":
+                        ctx.finding(f"cli-shape:{flag}", f"{label}: one result must give an object, several an array", rp)
+                    if len(out) < 40_000 and flag == "--json":
                         tb = Tables()
                         rterm = coq_list([f"({val_term(r, tb)}, {coq_list([val_term(u, tb) for u in r.iterate_units()])})"
                                           for r in rs])
@@ -1072,15 +1083,20 @@ def run(ctx):
         vt = val_term(o, tb)
         rcases.append(f"({vt}, {tb.enc_table()}, {json_term(S._serialize_for_json(o, include_binary=True))}, "
                       f"{json_term(S._serialize_for_json(o, include_binary=False))}, {json_term(o.to_json())})")
+    f_real = POOL.submit(coq_eval_shards, ctx, "real", PRE, "ser_case", rcases, shard=2, timeout=900,
+                         ty="val * list (bytes * str) * json * json * json") if rcases else None
+    f_cli = POOL.submit(coq_eval_shards, ctx, "cli", PRE, "cli_case", cli_cases, shard=2, timeout=900,
+                        ty="list (val * list val) * list (bytes * str) * bool * json * json") if cli_cases else None
+    finish_instances()
+    finish_deser()
+    finish_cells()
     if rcases:
-        okr, fr, logr = coq_eval_shards(ctx, "real", PRE, "ser_case", rcases, shard=4, timeout=900,
-                                        ty="val * list (bytes * str) * json * json * json")
+        okr, fr, logr = f_real.result()
         ctx.traces += len(rcases)
         ctx.obligation("correspondence:serialize model==implementation on real extraction results", okr and not fr,
                        (f"{len(fr)} disagreements, first: {results_small[fr[0]][0] if fr else ''} " + logr)[:1500])
     if cli_cases:
-        okc, fc, logc = coq_eval_shards(ctx, "cli", PRE, "cli_case", cli_cases, shard=3, timeout=900,
-                                        ty="list (val * list val) * list (bytes * str) * bool * json * json")
+        okc, fc, logc = f_cli.result()
         ctx.traces += len(cli_cases)
         ctx.obligation("correspondence:cli payload shaping model==implementation", okc and not fc,
                        (f"{len(fc)} disagreements " + logc)[:1500])
